@@ -1,10 +1,11 @@
 """C14 rolling_window / expanding_window: the indices select exactly the points inside each window."""
 import random
 import numpy as np
-from . import core, layouts
+from . import core, layouts, pylite_tie
 from .core import Case, cZ, cZraw, cN, cD, clist, cbool, copt
 
 ID = "C14"
+obligations = pylite_tie.windows_obligations   # source-regenerated tie (harness/pylite_tie.py, pylite_windows.v.tmpl)
 PROPS_FILE = "Props/C14.v"
 IMPORTS = "From Verde Require Import Model.Coordinates Model.CoordCases Model.Blocks Model.Windows."
 SHARD = 40
